@@ -12,7 +12,10 @@ use serde::{Deserialize, Serialize};
 use serde_json::json;
 use std::collections::{BTreeSet, HashMap};
 
-const C02_METHODS: [&str; 3] = ["GET", "PUT", "POST"];
+/// two extension methods in spellings that are not upper case: an endpoint registered for `report`
+/// must be reachable by a `report` request (no two spellings of one name are generated, so nothing
+/// is assumed about case folding)
+const C02_METHODS: [&str; 5] = ["GET", "PUT", "POST", "report", "Purge"];
 
 #[derive(Clone, Debug, Serialize, Deserialize, PartialEq)]
 enum PathParams {
@@ -94,7 +97,7 @@ fn reg_strategy() -> impl Strategy<Value = RegSpec> {
         2 => proptest::collection::vec((0u8..4, 0u8..10), 0..3).prop_map(Some),
     ];
     (
-        0u8..3,
+        prop_oneof![5 => 0u8..3, 1 => 3u8..5],
         segs,
         any::<u16>(),
         pp,
@@ -144,7 +147,7 @@ fn interpret(r: &RegSpec, n: usize) -> Step {
     let ranges = ranges_small();
     let e = MEndpoint {
         op: format!("op{}", n),
-        method: C02_METHODS[(r.method as usize) % 3].to_string(),
+        method: C02_METHODS[(r.method as usize) % C02_METHODS.len()].to_string(),
         trailing_slash: r.trailing_slash && !segs.is_empty(),
         segs,
         range: pick(r.range, &ranges).clone(),
